@@ -6,7 +6,7 @@ func init() {
 }
 
 func (g *Gen) sqlConf() *SqlConf {
-	c := &SqlConf{Table: []string{"t", "my table", "T1", "tab\"le", "é"}[g.rng.Intn(5)]}
+	c := &SqlConf{Table: []string{"t", "my table", "T1", "tab\"le", "é", "\"s\".\"t\"", "`t`", "\"\"", "'q'"}[g.rng.Intn(9)]}
 	switch g.rng.Intn(6) {
 	case 0:
 		c.Dialect = "postgres"
